@@ -10,15 +10,16 @@ import (
 	"verif/ref/mh"
 
 	"github.com/trustbloc/sidetree-go/pkg/commitment"
+	"github.com/trustbloc/sidetree-go/pkg/jws"
 	"github.com/trustbloc/sidetree-go/pkg/versions/1_0/operationparser"
 )
 
 func Run(r *core.Run) {
 	nKeys := core.Pick(r, 64, 1024)
-	r.Rule = fmt.Sprintf("keys: %d per type x 5 types x 5 nonce variants x {sha2-256, sha2-512}: reveal/commitment/derivation identities against the reference, all commitments pairwise distinct; "+
+	r.Rule = fmt.Sprintf("keys: %d per type x 5 types x 5 nonce variants x {sha2-256, sha2-512}, and 2 RSA keys (members n, e) x 3 nonce variants: reveal/commitment/derivation identities against the reference, all commitments pairwise distinct; "+
 		"chains: every sequence create (update|recover)^<=3 deactivate x 3 key-type assignments + mixed x 2 algorithms, and every non-constant assignment of the two algorithms to the operations of a chain (algorithm migration), keys with and without a nonce along one chain (none, all, alternating, and one key per chain re-used under changing nonces), linkage of every edge through the parser; "+
 		"distinct = distinct (key, nonce, algorithm) commitments and distinct chain edges; non-trivial = all", nKeys)
-	r.Assumptions = []string{"reference: reveal = mh(code, JCS(jwk)), commitment = mh(code, H(JCS(jwk))) with the JWK model {kty, crv, x, y[, nonce]}", "chains are built by the harness generator with fresh keys per step"}
+	r.Assumptions = []string{"reference: reveal = mh(code, JCS(jwk)), commitment = mh(code, H(JCS(jwk))) with the JWK model {kty, crv, x, y[, n, e][, nonce]}", "chains are built by the harness generator with fresh keys per step"}
 	nonces := []string{"", "AAAAAAAAAAAAAAAAAAAAAA", "_____________________w", "AQIDBAUGBwgJCgsMDQ4PEA", "AAAAAAAAAAAAAAAAAAAAAQ"}
 	codes := []uint{18, 19}
 	seen := map[string]string{}
@@ -77,6 +78,50 @@ func Run(r *core.Run) {
 			r.Observe("commitment", c)
 		}
 	}
+	// RSA public keys (members n and e; the JWK type always writes crv, x and y too), with and without a nonce
+	for i, n := range []string{"", "AAAAAAAAAAAAAAAAAAAAAA", "AQIDBAUGBwgJCgsMDQ4PEA"} {
+		for mi, modulus := range []string{"sXchDaQebHnPiGvyDOAT4saGEUetSyo9MKLOoWFsueri23bOdgWp4Dy1WlUzewbgBHod5pcM9H95GQRV3JDXboIRROSBigeC5yjU1hGzHHyXss8UDprecbAYxknTcQkhslANGRUZmdTOQ5qTRsLAt6BTYuyvVRdhS8exSZEy_c4gs_7svlJJQ4H9_NxsiIoLwAEk7-Q3UXERGYw_75IDrGA84-lA_-Ct4eTlXHBIY2EaV7t7LjJaynVJCpkv4LKjTTAumiGUIuQhrNhZLuF_RJLqHpM2kgWFLU7-VTdL1VbC2tejvcI2BlMkEpk1BzBZI0KQB0GaDWFLN-aEAw3vRw", "AQAB"} {
+			n, modulus := n, modulus
+			for _, code := range codes {
+				code := code
+				id := fmt.Sprintf("algebra/RSA/%d/%d/%d", mi, i, code)
+				m := map[string]any{"kty": "RSA", "crv": "", "x": "", "y": "", "n": modulus, "e": "AQAB"}
+				jwk := &jws.JWK{Kty: "RSA", N: modulus, E: "AQAB", Nonce: n}
+				if n != "" {
+					m["nonce"] = n
+				}
+				canon := ops.Canon(m)
+				wantRv := mh.MustHash(uint64(code), canon)
+				dg, _ := mh.Digest(uint64(code), canon)
+				wantC := mh.MustHash(uint64(code), dg)
+				desc := fmt.Sprintf("RSA/%d nonce=%q code=%d", mi, n, code)
+				if prev, dup := seen[wantC]; dup {
+					r.Report("distinct/"+desc, core.Fail{Key: "distinct/" + desc, What: fmt.Sprintf("keys %s and %s have the same commitment", prev, desc)})
+				}
+				seen[wantC] = desc
+				r.Case(id, func() *core.Fail {
+					rv, err1 := commitment.GetRevealValue(jwk, code)
+					c, err2 := commitment.GetCommitment(jwk, code)
+					det := map[string]any{"jwk": m, "code": code}
+					if err1 != nil || err2 != nil {
+						return &core.Fail{Key: id, What: fmt.Sprintf("reveal/commitment failed: %v %v", err1, err2), Detail: det}
+					}
+					if rv != wantRv {
+						return &core.Fail{Key: id, What: fmt.Sprintf("reveal value %q, expected multihash of canonical JWK %q", rv, wantRv), Detail: det}
+					}
+					if c != wantC {
+						return &core.Fail{Key: id, What: fmt.Sprintf("commitment %q, expected multihash of hash of canonical JWK %q", c, wantC), Detail: det}
+					}
+					d, err := commitment.GetCommitmentFromRevealValue(rv)
+					if err != nil || d != c {
+						return &core.Fail{Key: id, What: fmt.Sprintf("commitment derived from reveal value %q (%v) differs from the key's commitment %q", d, err, c), Detail: det}
+					}
+					return nil
+				})
+				r.Observe("commitment", wantC)
+			}
+		}
+	}
 	r.Class("keys")
 	// library and reference agree, so distinctness of library commitments follows from the map above
 	r.Sample(map[string]any{"kind": "key", "jwk": items[1].k.JWKMap(), "reveal_sha256": ops.Reveal(items[1].k, 18), "commitment_sha256": ops.Commitment(items[1].k, 18)})
@@ -115,7 +160,7 @@ func Run(r *core.Run) {
 		seq     string
 		types   []string
 		code    uint
-		flavour int // 0 plain; 1 anchoring window + anchor origin on every operation that can carry them
+		flavour int    // 0 plain; 1 anchoring window + anchor origin on every operation that can carry them
 		sched   []uint // algorithm of the commitments made by create (index 0) and by step i (index i+1); nil = code throughout
 		nonces  int    // which of the chain's keys carry a nonce: 0 none, 1 all, 2 every other one starting with the first, 3 ... with the second
 	}
